@@ -78,6 +78,16 @@ func init() {
 			return err == nil, fmt.Sprint(err)
 		})
 	}
+	probes["O87"] = func() (bool, string) {
+		return guard(func() (bool, string) {
+			c, _ := ucfg.NewFrom(map[string]interface{}{"m": map[string]interface{}{}})
+			var to struct {
+				M *map[string]int `validate:"nonzero"`
+			}
+			err := c.Unpack(&to)
+			return err == nil, fmt.Sprint(err)
+		})
+	}
 	probes["O86"] = func() (bool, string) {
 		return guard(func() (bool, string) {
 			to := struct{ I interface{} }{I: rejecting{}}
